@@ -124,7 +124,23 @@ func history(ctx context.Context, w *run.Worker, c *run.Case, concTouch bool) {
 	// count aRet saw the object absent.
 	observeAbsent := func(i int, o *objT, op string, aRet int64) {
 		if o.touch >= 0 && aRet <= o.touch+old {
-			c.Violation("localstore:touched-object-lost-within-old-blocks", "object #%d was touched by %s at allocation count %d; %s (returned at allocation count %d) observes it absent although only %d <= old_blocks=%d further blocks were allocated; config %v", i, o.touchOp, o.touch, op, aRet, aRet-o.touch, old, cfg)
+			var evs []string
+			for _, ev := range s.Log.Events() {
+				if strings.HasPrefix(ev.Kind, "klm.") || strings.HasPrefix(ev.Kind, "bl.") || strings.HasPrefix(ev.Kind, "alloc.") {
+					evs = append(evs, fmt.Sprintf("%s(%d,%d,%s)", ev.Kind, ev.A, ev.B, ev.S))
+				}
+			}
+			if len(evs) > 40 {
+				evs = evs[len(evs)-40:]
+			}
+			last, _ := s.KLM.Lookup(s.Key(o.d))
+			for slot := 0; slot < cfg.TableSize(); slot++ {
+				rec, err := s.Records.Get(slot)
+				evs = append(evs, fmt.Sprintf("slot%d=%x/a%d->%+v err=%v", slot, rec.RecordKey.Key[:4], rec.RecordKey.Attempt, rec.Location, err))
+			}
+			kk := s.Key(o.d)
+			evs = append(evs, fmt.Sprintf("key=%x", kk[:4]))
+			c.Violation("localstore:touched-object-lost-within-old-blocks", "object #%d was touched by %s at allocation count %d; %s (returned at allocation count %d) observes it absent although only %d <= old_blocks=%d further blocks were allocated; config %v; index discards=%d get-give-ups=%d; last stored location of the key %+v, pops=%d; recent events: %v", i, o.touchOp, o.touch, op, aRet, aRet-o.touch, old, cfg, im.Discards(), im.GetGiveUps(), last, s.BL.Pops.Load(), evs)
 		}
 		o.touch = -1
 	}
@@ -163,6 +179,9 @@ func history(ctx context.Context, w *run.Worker, c *run.Case, concTouch bool) {
 		}
 		c.Logf("get #%d -> ok allocs %d->%d (touch)", i, a0, aRet)
 		o.touch, o.touchOp = a0, "Get"
+		if tainted {
+			o.touch = -1
+		}
 		if checkRepeat {
 			_, wr0, _ := s.M.Blocks.Counts()
 			n0 := s.Alloc.Calls()
@@ -228,6 +247,12 @@ func history(ctx context.Context, w *run.Worker, c *run.Case, concTouch bool) {
 				}
 				c.Logf("fm #%d -> present allocs %d->%d (touch)", i, a0, aRet)
 				o.touch, o.touchOp = a0, "FindMissing"
+				if tainted {
+					// The index reported a discard during this very call (a
+					// refresh of another digest of the request displaced
+					// entries after this one had been looked up): no promise.
+					o.touch = -1
+				}
 			}
 		}
 		if checkRepeat {
@@ -430,7 +455,7 @@ func history(ctx context.Context, w *run.Worker, c *run.Case, concTouch bool) {
 				for _, ok := range oks {
 					any = any || ok
 				}
-				if any {
+				if any && !tainted {
 					o.touch, o.touchOp = a0, "concurrent Get/FindMissing"
 				} else {
 					o.touch = -1
